@@ -111,11 +111,11 @@ package tmconsensus
 //@     k >= 0 && psum(vals, bits, k) == 0 && !bits[k] ==> psum(vals, bits, k + 1) == 0
 
 // ubits(m): the set of validators that signed for at least one target of m.
-//@ spec ubits(m map[string]gcrypto.CommonMessageSignatureProof) array[mathint,bool] reads MD:Str, MV:Str:Iface, G:pbits
-//@ axiom ubits-intro: forall m map[string]gcrypto.CommonMessageSignatureProof, h string, i mathint :: {pbits(m[h])[i], ubits(m)}
-//@     h in m && pbits(m[h])[i] ==> ubits(m)[i]
+//@ spec ubits(m map[string]gcrypto.CommonMessageSignatureProof) array[mathint,bool] reads MD:Str:Iface, MV:Str:Iface, G:pbits
+//@ axiom ubits-intro: forall m map[string]gcrypto.CommonMessageSignatureProof, h string, i mathint :: {pbits(mapvals(m)[h])[i], ubits(m)}
+//@     h in m && pbits(mapvals(m)[h])[i] ==> ubits(m)[i]
 //@ axiom ubits-elim: forall m map[string]gcrypto.CommonMessageSignatureProof, i mathint :: {ubits(m)[i]}
-//@     ubits(m)[i] ==> (exists h string :: h in m && pbits(m[h])[i])
+//@     ubits(m)[i] ==> (exists h string :: h in m && pbits(mapvals(m)[h])[i])
 
 //@ define lim(ok, i, n) = ok ? (i < n ? i : n) : n
 
